@@ -70,7 +70,9 @@ class PivotedCholesky(Function):
 
             # Populate L[..., m, m] with the sqrt of the max diagonal element
             L_m = L[..., m, :]  # Will be all zeros -- should we use torch.zeros?
-            L_m.scatter_(-1, pi_m.unsqueeze(-1), max_diag_values.sqrt().unsqueeze_(-1))
+            # (a batch member whose residual is already exhausted can have a maximum of 0 or of -roundoff:
+            # its remaining columns are zero, rather than NaN)
+            L_m.scatter_(-1, pi_m.unsqueeze(-1), max_diag_values.clamp_min(0).sqrt().unsqueeze_(-1))
 
             # Populater L[... m:, m] with L[..., m:, m] * L[..., m, m].sqrt()
             if m + 1 < matrix_shape[-1]:
@@ -87,7 +89,9 @@ class PivotedCholesky(Function):
                     )
                     L_m_new -= torch.sum(update * L_prev, dim=-2)
 
-                L_m_new /= L_m.gather(-1, pi_m.unsqueeze(-1))
+                pivot = L_m.gather(-1, pi_m.unsqueeze(-1))
+                L_m_new /= pivot.masked_fill(pivot == 0, 1)
+                L_m_new.masked_fill_((pivot == 0).expand_as(L_m_new), 0)
                 L_m.scatter_(-1, pi_i, L_m_new)
 
                 matrix_diag_current = matrix_diag.gather(-1, pi_i)
